@@ -97,6 +97,18 @@ func (x *Exec) execInstr(fr *Frame, st *State, ins ssa.Instruction) {
 		c := x.val(fr, st, t.Cap)
 		fr.vals[t] = x.vc.define("mkslice", "Slice", fmt.Sprintf("(mk_slice (- %d) 0 %s %s)", x.objCtr, l, c))
 		x.assume(st, fmt.Sprintf("(and (<= 0 %s) (<= %s %s))", l, l, c))
+		// make zeroes the elements (non-struct element types: one cell memory)
+		if et := t.Type().Underlying().(*types.Slice).Elem(); et != nil {
+			if _, isStruct := et.Underlying().(*types.Struct); !isStruct {
+				if _, isArr := et.Underlying().(*types.Array); !isArr {
+					key := cellMemKey(et)
+					m := x.memGet(st, key, x.fieldArraySort(et))
+					x.memType[key] = et
+					q := x.vc.fresh("q_z")
+					x.assume(st, fmt.Sprintf("(forall ((%s Int)) (= (select %s (pelem (- %d) %s)) %s))", q, m, x.objCtr, q, x.vc.zero(et)))
+				}
+			}
+		}
 	case *ssa.MakeMap:
 		x.objCtr++
 		id := fmt.Sprintf("(- %d)", x.objCtr)
